@@ -44,6 +44,12 @@ def stress_specs(rng):
                 out.append((T + f'It is prohibited that {a}, whenever {b}.\n', [], 'two-tel-constraint'))
     for a in conds[:3]:
         out.append((T + f'Whenever {a}, whenever {a}, then we must have a fired with id 1.\n', [], 'two-tel-head/repeated'))
+    # a comparison on a parameter of an entity INSIDE an aggregate (`… a shift with capacity greater than 3 …`): the variable invented for the
+    # parameter must be bound where the comparison is printed
+    AP = ('A nurse is identified by an id.\nA shift is identified by an id, and has a capacity.\nA nurse goes from 1 to 3.\n'
+          'There is a shift with id 1, with capacity 5.\nEvery nurse can work in exactly 1 shift.\n')
+    for ph in ('greater than 3', 'less than 9'):
+        out.append((AP + f'It is prohibited that the number of nurses that work in a shift with capacity {ph} is more than 2.\n', [], 'aggregate-parameter-comparison'))
     # letter-initial concept names with digits or few consonants: the names invented from them must still be variables
     for nm in ('a1', 'e2e', 'io', 'b2', 'u9x'):
         out.append((f'A box is identified by an id.\nA{"n" if nm[0] in "aeiou" else ""} {nm} is identified by an id.\nA box goes from 1 to 2.\n'
@@ -127,7 +133,7 @@ def ground_external(program, timeout=45):
     return p.returncode == 0, [('msg', p.stdout)]
 
 
-STRESS = ('arith', 'two-tel', 'strings', 'constants', 'head-', 'equal-', 'prefixed-and', 'aggregate-where', 'prefix-on', 'names-with')
+STRESS = ('arith', 'two-tel', 'strings', 'constants', 'head-', 'equal-', 'prefixed-and', 'aggregate-where', 'prefix-on', 'names-with', 'aggregate-parameter')
 
 
 def _job(args):
